@@ -1100,17 +1100,63 @@ def sample_units():
 _lexer_parser = None
 
 
-def ply_tokens(text):
-    """token stream of bridgepoint.oal's own lexer, built exactly as OALParser.text_input builds it"""
+def oal_lexer(parser=None, label='<string>'):
+    """A fresh PLY lexer for bridgepoint.oal, built by `OALParser.text_input` ITSELF: text_input is run on an empty
+    text with yacc's `LRParser.parse` intercepted (for this one call), which receives the lexer text_input made - its
+    own `lex.lex(...)` arguments, its own logger, and every attribute it assigns afterwards (`label`, ...).  The
+    harness never reads names of the module that are not part of its interface (`oal.logger`, ...).
+
+    `parser`: the OALParser instance whose rules the lexer binds (default: one shared instance).  When the interception
+    does not yield a lexer (text_input no longer hands a `lexer` to the LALR parser, or the grammar does not build and
+    there is no parser instance), the lexer is built the way text_input is known to build it, with the attributes it
+    is known to assign; logging goes through `logging.getLogger(<module name>)`, never through a module variable."""
     global _lexer_parser
+    from bridgepoint import oal
+    from ply import yacc
+    if parser is None:
+        if _lexer_parser is None:
+            _lexer_parser = oal.OALParser()
+        parser = _lexer_parser
+    got = {}
+    orig = yacc.LRParser.parse
+
+    def grab(self, input=None, lexer=None, *args, **kwargs):
+        got['lexer'] = lexer
+        return None
+    yacc.LRParser.parse = grab
+    try:
+        try:
+            parser.text_input('', label)
+        except Exception:
+            got.pop('lexer', None)
+    finally:
+        yacc.LRParser.parse = orig
+    lexer = got.get('lexer')
+    if lexer is not None and hasattr(lexer, 'token') and hasattr(lexer, 'input'):
+        return lexer
+    return mirror_oal_lexer(parser, label)
+
+
+def mirror_oal_lexer(module, label='<string>'):
+    """the lexer as text_input builds it, written out (fallback of `oal_lexer`; `module`: an OALParser instance or
+    an object created with object.__new__(OALParser) when the grammar does not build)"""
+    import logging
     import os
     from bridgepoint import oal
     from ply import lex
-    if _lexer_parser is None:
-        _lexer_parser = oal.OALParser()
-    p = _lexer_parser
-    lexer = lex.lex(debuglog=oal.logger, errorlog=oal.logger, optimize=1, module=p,
+    log = logging.getLogger(oal.__name__)
+    lexer = lex.lex(debuglog=log, errorlog=log, optimize=1, module=module,
                     outputdir=os.path.dirname(oal.__file__), lextab="bridgepoint.__oal_lextab")
+    lexer.label = label
+    return lexer
+
+
+def ply_tokens(text, lexer=None):
+    """token stream of bridgepoint.oal's own lexer (a fresh lexer made by OALParser.text_input, see `oal_lexer`):
+    (kind, lexeme, lexpos, endlexpos, lineno, endlineno).  An exception raised here comes from a lexer object the
+    HARNESS drives: callers report it as an implementation failure only if `oal.parse` fails on the same text too
+    (`lexing_is_harness_fault`)."""
+    lexer = lexer if lexer is not None else oal_lexer()
     lexer.input(text)
     out = []
     while True:
@@ -1120,6 +1166,20 @@ def ply_tokens(text):
         out.append((t.type, t.value, t.lexpos, getattr(t, 'endlexpos', t.lexpos), t.lineno,
                     getattr(t, 'endlineno', t.lineno)))
     return out
+
+
+def lexing_is_harness_fault(text):
+    """after an exception below a harness-driven lexer: True when the library's own entry point copes with the same
+    text (a tree or oal.ParseException), so the exception says something about how the harness drives the lexer, not
+    about the implementation"""
+    from bridgepoint import oal
+    try:
+        oal.parse(text)
+    except oal.ParseException:
+        return True
+    except Exception:
+        return False
+    return True
 
 
 # --------------------------------------------------------------------------------------- executable programs (C08)
